@@ -249,8 +249,9 @@ def byte_steps(run, ctx):
         for p in S.paths_of(fn["body"], max_paths=200000):
             if not feasible(p):
                 continue
-            tests = [m.group(1) for pe in p.events if pe.kind == "cond" and pe.b for m in [re.match(r'^self\.re\[ix\.\.\]\.starts_with\("(.*)"\)$', pe.a)] if m]
-            tests += [m.group(1) for pe in p.events if pe.kind == "cond" and pe.b for m in [re.match(r"^self\.re\[ix\.\.\]\.starts_with\('(.*)'\)$", pe.a)] if m]
+            env_ = S.pure_env(p)
+            tests = [m.group(1) for pe in p.events if pe.kind == "cond" and pe.b for m in [re.match(r'^self\.re\[ix\.\.\]\.starts_with\("(.*)"\)$', H.subst_lets(pe.a, env_))] if m]
+            tests += [m.group(1) for pe in p.events if pe.kind == "cond" and pe.b for m in [re.match(r"^self\.re\[ix\.\.\]\.starts_with\('(.*)'\)$", H.subst_lets(pe.a, env_))] if m]
             longest = max([len(t) for t in tests] + [0])
             for ev in p.events:
                 ks = []
@@ -280,7 +281,21 @@ def error_mapping(run, ctx):
     if fn is None:
         return
     c = H.canon(fn["body"])
-    if ".build(inner_re).map_err(CompileError::InnerError).map_err(Error::CompileError)?" not in c:
+    # the build result goes through map_err step(s) that wrap it as CompileError::InnerError and is propagated by `?`
+    ok = False
+    for nd in H.walk(fn["body"]):
+        if nd.get("k") != "Try":
+            continue
+        chain = H.peel(nd["e"])
+        names = []
+        while chain.get("k") == "MethodCall" and chain["name"] != "build":
+            names.append((chain["name"], [H.canon(a) for a in chain["args"]]))
+            chain = H.peel(chain["recv"])
+        if chain.get("k") == "MethodCall" and chain["name"] == "build" and names and all(nm == "map_err" for nm, _ in names):
+            txt = " ".join(a for _, args in names for a in args)
+            if "CompileError::InnerError" in txt and "Error::CompileError" in txt:
+                ok = True
+    if not ok:
         run.violation(fam, label, "map", H.where(fn), "compile_inner must turn a regex-automata build error into Err(CompileError(InnerError(..))) and propagate it with `?` (never unwrap), found %s" % c[-200:])
     else:
         run.ok(fam, label, H.where(fn), 1, "RaBuilder::build(..).map_err(InnerError).map_err(CompileError)?")
